@@ -23,7 +23,7 @@ CHECKS = ("blotter",)
 
 
 def sub_machine(col, budget, seed, tier, shard, nshards):
-    M.run(col, SimWorld, CHECKS, M.base_cfg(limits="none", handicaps=True, market_limit=True), budget, 30 if tier == "quick" else 60, seed, tier, "blotter")
+    M.run(col, SimWorld, CHECKS, M.base_cfg(limits="none", handicaps=True, market_limit=True), budget, 30 if tier == "quick" else 60, seed, tier, "blotter", rule_weights={"resubmit": 2})
 
 
 # ---- live mode: blotter coherence after every step of a generated live schedule (adoptions, replacements) ----
